@@ -8,6 +8,9 @@ import time
 from . import env
 
 KNOWN_FILE = os.path.join(env.VERIF, 'KNOWN_FINDINGS.txt')
+# experiments against scratch trees (PMC_SRC=...) may redirect evidence/ and replays/ so that they never touch the
+# files of the registered checks
+OUT = os.environ.get('PMC_OUT') or env.VERIF
 MAX_SAMPLES = 6
 
 
@@ -115,7 +118,7 @@ def finish(col, replay_fn=None):
                     raise env.InternalError(
                         f"non-deterministic replay (attempt {attempt}) for signature {sig!r}: got {sigs!r}; "
                         f"case={json.dumps(rep['case'])[:600]}")
-        d = os.path.join(env.VERIF, 'replays', pid)
+        d = os.path.join(OUT, 'replays', pid)
         os.makedirs(d, exist_ok=True)
         path = os.path.join(d, hashlib.sha1(sig.encode()).hexdigest()[:10] + '.json')
         with open(path, 'w') as f:
@@ -157,8 +160,8 @@ def finish(col, replay_fn=None):
     ev = {'property_id': pid, 'tier': col.tier, 'seed': col.seed, 'level': 'model_checking',
           'coverage': cov, 'assumptions': col.assumptions, 'wall_s': round(wall, 3),
           'violations': len(new_sigs)}
-    os.makedirs(os.path.join(env.VERIF, 'evidence'), exist_ok=True)
-    path = os.path.join(env.VERIF, 'evidence', f'{pid}.json')
+    os.makedirs(os.path.join(OUT, 'evidence'), exist_ok=True)
+    path = os.path.join(OUT, 'evidence', f'{pid}.json')
     tmp = path + '.tmp'
     with open(tmp, 'w') as f:
         json.dump(jsonable(ev), f, indent=1, sort_keys=True)
